@@ -69,6 +69,10 @@ pub struct Profile<'a> {
     pub p_no_return_site: u16,
     /// probability (of 256) that a sub is named like a pool symbol (an internal function called `system` …)
     pub p_pool_sub_name: u16,
+    /// names that may occur twice in the extern table (two import entries with distinct tids, as a binary
+    /// with a PLT entry and an external thunk for the same function has) with the given probability (of 256)
+    pub dup_names: &'a [&'a str],
+    pub p_dup: u16,
 }
 
 fn weighted(t: &mut Tape, w: &[u32]) -> usize {
@@ -93,6 +97,14 @@ pub fn decode_prog(t: &mut Tape, p: &Profile) -> ProgSpec {
     for (name, presence, _) in p.pool {
         if t.prob(*presence) {
             externs.push(ExtSpec { name: name.to_string(), no_return: p.no_return.contains(name) });
+        }
+    }
+    // duplicate import entries (same name, own tid); placed at the END of the table so that the indices
+    // (and tids) of the primary entries do not change
+    let primary: Vec<String> = externs.iter().map(|e: &ExtSpec| e.name.clone()).collect();
+    for n in p.dup_names {
+        if primary.iter().any(|x| x == n) && t.prob(p.p_dup) {
+            externs.push(ExtSpec { name: n.to_string(), no_return: p.no_return.contains(n) });
         }
     }
     let call_w: Vec<u32> = externs.iter().map(|e| p.pool.iter().find(|(n, _, _)| *n == e.name).map(|x| x.2).unwrap_or(1)).collect();
